@@ -1,6 +1,6 @@
 SPECIFICATION Spec
 CONSTANTS
-  MaxRanges = 5
+  MaxRanges = 4
   Starts = {0, 2, 4, 6}
   MaxQueries = 1
 INVARIANT TypeOK
